@@ -274,9 +274,12 @@ func expiresUptimeProbe(m *meta) {
 		w.Write([]byte("x"))
 	}))
 	time.Sleep(1300 * time.Millisecond)
-	exp = time.Now().Add(3 * time.Second).UTC().Format(http.TimeFormat)
+	t0 := time.Now()
+	exp = t0.Add(3 * time.Second).UTC().Format(http.TimeFormat)
 	h.ServeHTTP(httptest.NewRecorder(), httptest.NewRequest("GET", "/soon", nil))
-	if _, rem, ok := mw.VerifPeek("GET:/soon"); !ok {
+	if _, rem, ok := mw.VerifPeek("GET:/soon"); time.Since(t0) > time.Second {
+		m.count("expires_uptime_probe_too_slow") // the machine stalled: Expires may already have passed when the policy ran
+	} else if !ok {
 		m.violate("C13", "a plain 200 response with Expires 3 s ahead (no Cache-Control) was not stored by a middleware created 1.3 s earlier", "expires uptime probe")
 	} else if rem > 3*time.Second+50*time.Millisecond || rem <= 0 {
 		m.violate("C13", fmt.Sprintf("a middleware created 1.3 s earlier stored a response whose Expires (%s) lies at most 3 s ahead with %v left to live: a response governed by Expires lives until that instant, measured when it is stored", exp, rem), "expires uptime probe")
